@@ -28,7 +28,11 @@ V(n) ==
    [x \in {"a"} |-> Mp([y \in {"b"} |-> t])], [x \in {"a"} |-> Mp([y \in {"b"} |-> Null])],
    [x \in {"a"} |-> Mp(<<>>)]}        \* an empty table: adds nothing, removes nothing
   \cup (IF Full THEN {[x \in {"a"} |-> Mp([y \in {"c"} |-> t])], [x \in {"k"} |-> Null],
-                      [x \in {"a"} |-> Li(<<t>>)]} ELSE {})
+                      [x \in {"a"} |-> Li(<<t>>)],
+                      \* a table below a table, a table next to a scalar, nulls over both at once
+                      [x \in {"a"} |-> Mp([y \in {"b"} |-> Mp([z \in {"c"} |-> t])])],
+                      [x \in {"a", "k"} |-> IF x = "a" THEN Mp([y \in {"b"} |-> t]) ELSE t],
+                      [x \in {"a", "k"} |-> Null]} ELSE {})
 
 Modes == {"default", "reset", "reuse", "rtr"}
 NoVals == <<>>
@@ -77,7 +81,7 @@ DiffsOf(st) ==
             c == IF ConfigOk(s, depCfg, tgtCfg, cr[i].cfg) THEN {} ELSE {IF l18 THEN "kf:L18-config" ELSE "L:config"}
             e == IF EffectiveOk(pr[i], CodeEffective(cr[i])) THEN {} ELSE {IF l18 THEN "kf:L18-effective" ELSE "L:effective"}
         IN c \cup e
-  IN UNION {one(i) : i \in 1..n}
+  IN UNION {one(i) : i \in 1..n} \cup (IF NullUniform(st, cfgs, n) THEN {} ELSE {"L:null-nonuniform"})
 
 StepJ(s) == [op |-> s.op, mode |-> s.mode, vals |-> Mp(s.vals), chart |-> s.chart, target |-> s.target, fail |-> s.fail]
 RECURSIVE PickStr(_)
